@@ -157,6 +157,22 @@ def replay_known(ctx, binp):
             ctx.violation("ephemeral-topic-autodelete:" + name.replace("ephemeral_topic_", ""), "%s: %s" % (
                 name, " ".join("%s=%s" % x for x in sorted(kv.items()))),
                 sched + "# observed: " + " ".join("%s=%s" % x for x in sorted(kv.items())) + "\n")
+    # audit B9: hook-less rounds of "SUB while the last consumer of an ephemeral channel leaves" (asynchronous auto-delete)
+    name = "ephemeral_sub_after_last_leave"
+    rc, kv, out = run_sched(ctx, binp, name, timeout=120)
+    res[name] = kv or {"error": out[-300:]}
+    sched = open(os.path.join(ROOT, "corpus", "C08", name + ".sched")).read()
+    if not kv:
+        if rc == -9 or "test timed out" in out:
+            ctx.violation("daemon-hangs:" + name, "%s did not finish" % name, sched)
+        else:
+            ctx.broken_ties.append("replay %s did not run (rc=%s)" % (name, rc))
+    else:
+        ctx.evaluations += int(kv.get("rounds", "1"))
+        ctx.count_case("sched:" + name, nontrivial=True)
+        obs = " ".join("%s=%s" % x for x in sorted(kv.items()))
+        if kv.get("wrong") == "true":
+            ctx.violation("ephemeral-autodelete-leaves-zombie-consumer", "%s: %s" % (name, obs), sched + "# observed: " + obs + "\n")
     rc, kv, out = run_sched(ctx, binp, "empty_races_delivery")
     res["empty_races_delivery"] = kv or {"error": out[-300:]}
     if not kv:
@@ -569,9 +585,18 @@ def concurrent_leg(ctx, binp, rounds, ms, race_bin=None):
         rp = json.dumps({"kind": "conc", "seed": ctx.seed * 100 + i, "ms": ms})
         if ok:
             res["ok"] += 1
+            # audit B23: the free-running operations are a stress load, not correspondence evaluations; what counts
+            # is the number of oracle checks made on the quiescent daemon afterwards
             res["ops"] += int(ok[0].split("ops=")[1].split()[0])
             res["last"] = ok[0]
-            ctx.evaluations += int(ok[0].split("ops=")[1].split()[0])
+            nchk = int(ok[0].split("quiesce_checks=")[1].split()[0]) if "quiesce_checks=" in ok[0] else 0
+            res["quiesce_checks"] = res.get("quiesce_checks", 0) + nchk
+            ctx.evaluations += nchk
+            for l in out.splitlines():
+                if l.startswith("E5CONC oracle "):
+                    kv = dict(x.split("=", 1) for x in l.split()[2:] if "=" in x)
+                    ctx.violation("concurrent-quiesce:" + kv.get("key", "?"),
+                                  "free-running goroutines, then every worker stopped: " + l[len("E5CONC oracle "):], rp + "\n" + l)
             continue
         blocked = [l for l in out.splitlines() if l.startswith("E5CONC blocked")]
         if "WARNING: DATA RACE" in out:
